@@ -640,7 +640,7 @@ pub fn check_valid(tape: &[u16], rc: &mut RCase) -> Result<(), Failure> {
 
 pub fn run(tier: Tier, seed: u64) -> Report {
     let mut r = Report::new("C13", tier, seed);
-    r.rule = "valid generated programs under one semantic mutation each (17 kinds: drop/duplicate/rename a constructor \
+    r.rule = "valid generated programs under one semantic mutation each (18 kinds: drop/duplicate/rename a constructor \
               field, call arity, identifier of another symbol kind, odd hex literal, property on an unsupported value, \
               non-literal index, datum read inside an asset call, local chain of 2..20, withdrawal with missing fields, \
               field name shadowing a value, input reading itself, min_utxo argument, untyped list index, input as mint \
